@@ -35,8 +35,12 @@ Proof.
   intros H. apply andb_prop in H as [Ha Hl]. rewrite Ha. auto.
 Qed.
 
+(* trim_space is written with the linear-time reversal; for reasoning, the specification-style rev *)
+Lemma trim_space_rev : forall l, trim_space l = rev (trim_left_rev (rev (trim_left_sp l))).
+Proof. intros l. unfold trim_space, rev'. now rewrite <- !rev_alt. Qed.
+
 Lemma trim_space_all_sp : forall l, forallb is_sp1 l = true -> trim_space l = [].
-Proof. intros l H. unfold trim_space. now rewrite trim_left_all_sp. Qed.
+Proof. intros l H. rewrite trim_space_rev. now rewrite trim_left_all_sp. Qed.
 
 Lemma cut_blank : forall w, blank_ok w = true -> forallb is_sp1 (cut_at 13 w) = true.
 Proof.
@@ -94,7 +98,7 @@ Qed.
 
 Lemma trim_space_head : forall x t, graphic x = true -> exists t', trim_space (x :: t) = x :: t'.
 Proof.
-  intros x t H. unfold trim_space. rewrite trim_left_keeps by exact H.
+  intros x t H. rewrite trim_space_rev. rewrite trim_left_keeps by exact H.
   cbn [rev]. destruct (trim_rev_keeps_n x H (length (rev t)) (rev t) (le_n _)) as [s Hs].
   rewrite Hs, rev_app_distr. cbn [rev app]. eauto.
 Qed.
@@ -119,8 +123,8 @@ Lemma skip_comment : forall w t, forallb blank_char w = true -> ssh_skip (w ++ 3
 Proof.
   intros w t Hw. unfold ssh_skip. rewrite cut_at_app_stop by exact Hw.
   cbn [cut_at]. change (35 =? 13) with false. cbv iota.
-  unfold trim_space. rewrite trim_left_skip_ws by exact Hw.
-  fold (trim_space (35 :: cut_at 13 t)).
+  rewrite trim_space_rev. rewrite trim_left_skip_ws by exact Hw.
+  rewrite <- trim_space_rev.
   destruct (trim_space_head 35 (cut_at 13 t) eq_refl) as [t' ->]. reflexivity.
 Qed.
 
